@@ -118,6 +118,12 @@ def build(spec):
             else:
                 params[(p["tag"], p["id"])] = G2OParameterSE3Offset((p["tag"], p["id"]), mkpose("se3", p["value"]))
         g._g2o_params = params
+        # as the loader does: a landmark edge that names a registered parameter uses the parameter's own pose object as its offset
+        for e in g._edges:
+            if isinstance(e, EdgeLandmark) and isinstance(e.offset, PoseSE3):
+                prm = params.get(("PARAMS_SE3OFFSET", e.offset_id))
+                if prm is not None and fl(prm.value) == fl(e.offset):
+                    e.offset = prm.value
     return g
 
 
